@@ -470,10 +470,16 @@ def main():
     alloc_diff = []
     if driver:
         nseq, nops = (60, 150) if tier == "quick" else (600, 300)
-        ops, alloc_hist = gen_alloc_ops(rng, reserved, nseq, nops)
         corpus_ops = sorted((V.VERIF / "corpus" / CID).glob("*.ops"))
         OUT.mkdir(parents=True, exist_ok=True)
-        batches = [(f.name, f.read_text().splitlines()) for f in corpus_ops] + [("generated", ops)]
+        batches = [(f.name, f.read_text().splitlines()) for f in corpus_ops]
+        # small batches: every batch is one process / one model state (the model copies its scope list per op)
+        per = 10
+        for b in range(0, nseq, per):
+            ops, h = gen_alloc_ops(rng, reserved, min(per, nseq - b), nops)
+            for k, v in h.items():
+                alloc_hist[k] = alloc_hist.get(k, 0) + v
+            batches.append((f"generated{b // per}", ops))
         for name, lines in batches:
             of = OUT / f"alloc_{name}.txt"
             of.write_text("\n".join(lines) + "\n")
